@@ -137,7 +137,7 @@ func runCase(c Case) *hx.Failure {
 		}
 		fail = hx.Guard(func() {
 			erp := interpreter.NewECALRuntimeProvider("c17", il, util.NewNullLogger())
-			defer erp.Cron.Stop()
+			go erp.Cron.Stop() // never wait for Cron.Stop(): it can deadlock against the cron tick
 			var ast *parser.ASTNode
 			if ast, err = parser.ParseWithRuntime("c17", fmt.Sprintf("import %q as x\nx.v", c.Path), erp); err != nil {
 				return
